@@ -395,22 +395,24 @@ def readSysComment {α} (cfg : Cfg) (t : Text) (i : Nat) (a : List Char) (m : PS
 
 /-! ## `get_fn_arity`, `list_to_dict`, `parse_module` -/
 
+/-- `f.is_adverb_chain()`: `f.a` is a list whose first element is a KGAdverb -/
+def Node.isChain : Node → Bool
+  | .pylist (.adv _ _ :: _) => true
+  | _ => false
+
 mutual
-  /-- `_e(f, level=1)`: the reserved symbols mentioned, as flags for x, y, z -/
+  /-- `_params(f)` of `get_fn_arity`: the parameter symbols referenced anywhere in the expression, as flags
+      for x, y, z.  An operator application, an adverb chain or a call of a named / parameter function is
+      looked into (verb and arguments; a missing argument list is `[None]`); anything else applied to
+      arguments is a nested function literal whose body has its own x, y, z — only its arguments count. -/
   def usedArgs : Node → Bool × Bool × Bool
     | .sym n => (n == ['x'], n == ['y'], n == ['z'])
     | .fn a hasArgs args _ _ =>
-      let (x1, y1, z1) := usedArgs a
+      let (x1, y1, z1) := if a.isChain || a.isSym then usedArgs a else (false, false, false)
       let (x2, y2, z2) := if hasArgs then usedArgsL args else (false, false, false)
       (x1 || x2, y1 || y2, z1 || z2)
-    | .mfn a x =>
-      let (x1, y1, z1) := usedArgs a
-      let (x2, y2, z2) := match x with
-        | .pylist xs => usedArgsL xs
-        | .cond xs => usedArgsL xs
-        | .exprArr xs => usedArgsL xs
-        | _ => (false, false, false)
-      (x1 || x2, y1 || y2, z1 || z2)
+    | .mfn _ x => usedArgs x        -- KGFn(op, x, 1): the operator contributes nothing, the operand is looked into
+    | .adv a _ => usedArgs a
     | .pylist xs => usedArgsL xs
     | .cond xs => usedArgsL xs
     | .exprArr xs => usedArgsL xs
@@ -426,16 +428,16 @@ end
 def countFlags (f : Bool × Bool × Bool) : Nat :=
   (if f.1 then 1 else 0) + (if f.2.1 then 1 else 0) + (if f.2.2 then 1 else 0)
 
-/-- `get_fn_arity(f)`: for a call of a non-reserved symbol the number of distinct reserved
-    symbols / holes among its arguments (a missing argument list counts as one hole), otherwise
-    the number of distinct x, y, z mentioned.  (Total on the current tree; `Except` is kept for the
-    callers' error branch.) -/
+/-- `get_fn_arity(f)` (main 344f15c): for a call of a named (non-reserved) function the distinct
+    parameters referenced anywhere in its arguments plus one for its holes (a missing argument list is one
+    hole); otherwise the distinct parameters referenced anywhere in the body.  (Total; `Except` is kept for
+    the callers' error branch.) -/
 def fnArity (f : Node) : Except Err Nat :=
   match f with
   | .fn (.sym n) hasArgs args _ _ =>
     if !reservedNames.contains n then
       let as := if hasArgs then args else [.none]
-      .ok (countFlags (usedArgsL (as.filter Node.isReserved)) + (if hasNone as then 1 else 0))
+      .ok (countFlags (usedArgsL as) + (if hasNone as then 1 else 0))
     else .ok (countFlags (usedArgs f))
   | _ => .ok (countFlags (usedArgs f))
 
